@@ -10,7 +10,6 @@ from harness import core
 ID = 'C32'
 TITLE = 'CSV import keeps every cell'
 PROPS = ['Props/C32']
-DISABLED = True
 RULE = ('random text grids of 0-300 rows (small 0-6, medium, around the 100-row sample boundary, large), base width '
         '1-5, ragged rows, optional header row / title row, blank rows ([] and all-"" rows, also as first row), '
         'blank columns, one or two wide rows placed before or after row 100, cells with delimiters, quote '
@@ -33,8 +32,8 @@ TRUSTED = ['Model/Csv.v is hand-written; it is compared with imports.import_csv.
            '(identity) is chosen; monitored on every case (column type "Any", cells are the same str objects\' text)']
 ASSUMPTIONS = ['data rows are the rows after the importer\'s own data offset (title rows above the detected header '
                'are its documented heuristic); non-blank is the importer\'s own empty() (not value.strip())',
-               'C32_cells_kept_current has the hypotheses late_rows_fit (no row after the first 100 is wider than '
-               'the width derived from them) and not blank_first_row_case; C32_cells_kept_repaired has none']
+               'C32_cells_kept (current source, after fix 6b8f366) has no hypotheses; the *_before_fix theorems are '
+               'about import_csv_gen false, the source before that commit, and document what the fix was needed for']
 
 LINEBREAKS = u'\x0b\x0c\x1c\x1d\x1e\x85\u2028\u2029'
 SAMPLE = 100
@@ -387,26 +386,47 @@ def exhaustive_cases():
 # --------------------------------------------------------------------------------------------------
 # Coq side
 
-def cell_lit(c):
-  return core.strlit(c)
+# Monomorphic list constructors: Coq elaborates `rc a (rc b rnil)` about ten times faster than `[a; b]` (no
+# implicit argument to infer per element), which matters for 300-row grids.
+EXTRA_DEFS = """
+Definition zc (z : Z) (c : cell) : cell := z :: c.  Definition znil : cell := [].
+Definition rc (c : cell) (r : row) : row := c :: r.  Definition rnil : row := [].
+Definition gc (r : row) (g : grid) : grid := r :: g.  Definition gnil : grid := [].
+Definition oc (p : cell * list cell) (l : list (cell * list cell)) : list (cell * list cell) := p :: l.
+Definition onil : list (cell * list cell) := [].
+"""
 
 
-def grid_lit(g):
-  return core.coq_list([core.coq_list([cell_lit(c) for c in r]) for r in g])
+def mono(items, cons, nil):
+  out = nil
+  for it in reversed(items):
+    out = '(%s %s %s)' % (cons, it, out)
+  return out
 
 
 def coq_case(rows, numeric, case, cols):
+  """One case as a Coq term; distinct cell texts are let-bound once."""
+  names = {}
+  order = []
+
+  def cell(c):
+    if c not in names:
+      names[c] = 'c%d' % len(names)
+      order.append(c)
+    return names[c]
+
+  g = mono([mono([cell(c) for c in r], 'rc', 'rnil') for r in rows], 'gc', 'gnil')
+  nums = mono([cell(c) for c in numeric], 'rc', 'rnil')
+  out = mono(['(%s, %s)' % (cell(i), mono([cell(c) for c in d], 'rc', 'rnil')) for i, d in cols], 'oc', 'onil')
   o = '{| o_headers := %s; o_num_rows := %s |}' % (core.optlit(case.get('headers'), core.boollit),
                                                     core.zlit(case.get('num_rows') or 0))
-  out = core.coq_list(['(%s, %s)' % (cell_lit(i), core.coq_list([cell_lit(c) for c in d])) for i, d in cols])
-  return '((%s : grid), (%s : list cell), %s, (%s : list (cell * list cell)))' % (
-      grid_lit(rows), core.coq_list([cell_lit(c) for c in numeric]), o, out)
+  lets = ''.join('let %s : cell := %s in ' % (names[c], mono([core.zlit(ord(ch)) for ch in c], 'zc', 'znil'))
+                 for c in order)
+  return '(%s(%s, %s, %s, %s))' % (lets, g, nums, o, out)
 
 
-# VERIF_C32_REPAIRED=1 compares the implementation with the REPAIRED model instead (used once, on a scratch tree with
-# notes/proposed_fixes/C32-late-wide-row.diff applied, to validate `import_csv_gen true`); the default is the model
-# of the current source.
-MODEL_FN = 'import_csv_gen true' if os.environ.get('VERIF_C32_REPAIRED') else 'import_csv'
+# The model of the current source (import_csv = import_csv_gen source_is_repaired, see Model/Csv.v).
+MODEL_FN = 'import_csv'
 CHECK = ('fun c => let \'(g, nums, o, out) := c in out_eqb (erase (%s (isnum_of nums) g o)) out' % MODEL_FN)
 SPACES = [9, 10, 11, 12, 13, 28, 29, 30, 31, 32, 133, 160, 5760] + list(range(8192, 8203)) + \
          [8232, 8233, 8239, 8287, 12288]
@@ -424,9 +444,21 @@ def monitor_whitespace(ctx):
     ctx.broken('monitor:is_space of Model/Csv.v differs from the list in c32.py', 'index %d' % i)
 
 
+def witness_cases():
+  """The witnesses of the (fixed) known-findings entries of C32: always run, and run first, so that a regression of
+  one of the repaired defects is re-found with the original input."""
+  out = []
+  for k in core.load_known():
+    if k.get('property') == ID and k.get('witness'):
+      w = k['witness']
+      out.append({'grid': [list(r) for r in w['grid']], 'dialect': dict(w['dialect']), 'headers': w.get('headers'),
+                  'num_rows': w.get('num_rows') or 0, 'tags': ['witness']})
+  return out
+
+
 def all_cases(ctx):
-  cs = fixed_cases()
-  for _ in range(ctx.n(330, 4000)):
+  cs = witness_cases() + fixed_cases()
+  for _ in range(ctx.n(500, 15000)):
     cs.append(gen_case(ctx.rng))
   if ctx.tier == 'thorough':
     cs.extend(exhaustive_cases())
@@ -469,7 +501,8 @@ def correspond(ctx):
     if not res['cols']:
       ctx.bump('no table')
   ctx.log('implementation run on %d cases; evaluating the model in Coq' % len(coq))
-  bad = ctx.run_cases('csv', ['Grist.Model.Csv'], CHECK, coq, shard=ctx.n(48, 400), timeout=900)
+  bad = ctx.run_cases('csv', ['Grist.Model.Csv'], CHECK, coq, shard=ctx.n(48, 400), timeout=900,
+                      extra_defs=EXTRA_DEFS)
   ctx.log('model evaluated: %d disagreements' % len(bad))
   for i in bad[:5]:
     case = cs[idx[i]]
@@ -516,7 +549,7 @@ def search(ctx):
 
 def _shrink(ctx, case, kind):
   """Greedy row removal keeping the same failure kind (keeps replays small)."""
-  if len(case['grid']) > 140 or kind in ('exception',):
+  if len(case['grid']) > 140 or kind in ('exception',) or 'witness' in case.get('tags', ()):
     return case
   cur = dict(case, grid=[list(r) for r in case['grid']])
   if kind == 'late-wide-row':
@@ -554,14 +587,14 @@ def replay(ctx, w):
 TECHNIQUE = ('Coq proof over a hand-written executable model of the importer (after csv.reader) + differential cases '
              'against imports.import_csv.parse_file evaluated with vm_compute + the property oracle on the '
              'implementation output')
-LEVEL_TEXT = ('Kernel-checked theorems about the model of _parse_open_file/headers_guess/expand_headers/'
-              'get_table_data/empty-column removal, for all grids, all header settings, all NUM_ROWS and every '
-              '_is_numeric oracle: columns are rectangular, in input order and verbatim; cells_kept holds exactly '
-              'when every data row fits the derived width; it is refuted for the current source (late wide row; '
-              'blank first line), proved for the current source under the two excluding hypotheses, and proved '
-              'without hypotheses for the source with the proposed one-line repair. The model is compared with the '
-              'running importer on generated CSV files on every run.')
-LEVEL_NOTE = ('Trusted: Coq kernel; decoding/sniffing/csv.reader (outside the model, round trip monitored); '
-              '_is_numeric as an arbitrary oracle; hand-written model validated differentially on each run. '
-              'Known findings: late wide row, blank first line with single-column data, Unicode line-break '
-              'characters split records in codecs.open.')
+LEVEL_TEXT = ('Kernel-checked theorem C32_cells_kept about the model of _parse_open_file/headers_guess/expand_headers/'
+              'get_table_data/empty-column removal of the current source: for all grids, all header settings, all '
+              'NUM_ROWS and every _is_numeric oracle, columns have one entry per data row and every non-blank cell of '
+              'a data row is at its row and column; plus: columns are in input order and verbatim; cells_kept holds '
+              'exactly when every data row fits the derived width; the source before fix 6b8f366 is refuted (late '
+              'wide row; blank first line) and proved only under the two excluding hypotheses. The model is compared '
+              'with the running importer on generated CSV files on every run.')
+LEVEL_NOTE = ('Trusted: Coq kernel; decoding/sniffing/csv.reader (outside the model, round trip monitored on every '
+              'case); _is_numeric as an arbitrary oracle; hand-written model validated differentially on each run. '
+              'Fixed findings (witnesses stay in the corpus): late wide row and blank first line (6b8f366), Unicode '
+              'line-break characters splitting records in codecs.open (bc800a1).')
